@@ -8,8 +8,10 @@ What the theorems are about.  `RiemannIG.solveWith (toData q) pat px xd0 x t` is
 real-number instantiation of the hand model `EPV.Model.RiemannIG` of
 `RiemannIGEOS.driver` (`riemann.py:96–201`): the star state, `Vregs`, and the sequence of
 `reg_state` overwrites, evaluated at one point.  That assembly is a HAND MODEL; it is tied
-to the code by wp-riemann's correspondence (`harness/o_riemann.py:tie_assembly`, Float run
-of the same polymorphic definitions against the real driver), and each helper formula in
+to the code by correspondence runs (`harness/o_c04.py:tie_assembly`, obligation
+`C04.riemann_ig.assembly_tie`, and the Riemann package's own `harness/o_riemann.py`: Float run
+of the same polymorphic definitions against the real driver and the public solver — pattern,
+`Vregs` and the four fields at random points and next to every wave), and each helper formula in
 it is proved equal to the generated model of the `utils.py` function it mirrors
 (`EPV.Lemmas.Riemann`, `m_*`).  The star pressure `px` (scipy `bisect`) is an atom: the
 theorems assume `X_call px = 0` for the generated model of the pattern's `X_call`.
@@ -18,11 +20,12 @@ Hypotheses.
 * `q.Admissible`: positive pressures and densities, γ_L, γ_R > 1 (the documented data).
 * `q.Distinct`: the right state is not identical to the left state in (p, ρ, u); the
   `==`-based side detection of `shock_velocity` / `rho_p_u_rarefaction` labels a right state
-  equal to the left state as "left".  (In that degenerate case px = pl = pr and all states
-  coincide, see `trivial_conservationFormula`.)
+  equal to the left state as "left".  In that degenerate case (a material interface at rest,
+  γ_L ≠ γ_R) the property is FALSE on the current code: `EPV.Props.C04.FindingIdentical`.
 * `0 < px`, `X_call px = 0`.
 * the pattern: a rarefaction on a side means `px ≤ p` on that side.  Nothing is assumed
   for a shock side: Rankine–Hugoniot and the ordering of the speeds hold for every px > 0.
+  (`EPV.Props.C04.RiemannClassified` derives `px ≤ p` from the driver's own classification.)
 * `0 < t`, and `a < xd0 + t V < b` for every `V` in the model's `Vregs`.
 
 Proof.  `EPV.Lemmas.ConservationState.conservationFormula_of_svalid` (the abstract theorem:
